@@ -111,7 +111,8 @@ def main():
             tie[getattr(g, "__name__", "gen")] = "unavailable(%s)" % str(e)[:200]
 
     # ---- theorems -----------------------------------------------------------
-    ok_all, out = vf.lake_build(["Ufw.Props." + pid, prop.DRIVER])
+    tie_mods = list(getattr(prop, "TIE", []))
+    ok_all, out = vf.lake_build(["Ufw.Props." + pid, prop.DRIVER] + tie_mods)
     proof_ok = ok_all
     driver_ok = ok_all
     if not ok_all:
@@ -124,8 +125,11 @@ def main():
     aud = {"ok": False, "theorems": [], "problems": ["not run"]}
     if proof_ok:
         extra = prop.gen_theorems() if hasattr(prop, "gen_theorems") else []
+        # obligations over the regenerated constants (tie A): every theorem of the property's Tie modules
+        for m in tie_mods:
+            extra = list(extra) + [full for _, full in vf.theorems_of(os.path.join(vf.LEAN, m.replace(".", "/") + ".lean"))]
         aud = vf.audit(pid, allow_bv_decide=getattr(prop, "ALLOW_BV", False), extra_theorems=extra,
-                       extra_imports=getattr(prop, "GEN_IMPORTS", []))
+                       extra_imports=list(getattr(prop, "GEN_IMPORTS", [])) + tie_mods)
         if not aud["ok"]:
             problems.append({"what": "axiom / token audit", "errors": aud["problems"][:8]})
     thms = aud["theorems"]
